@@ -597,6 +597,11 @@ def main(argv, PROPS, MODELS):
                 p, h, s = build_bin(b)
                 log("built %s in %.1fs" % (b, s))
             return 0
+        if a.pid == "extra":
+            rc = 0
+            for xp in sorted(p for p in PROPS if p.startswith("X")):
+                rc = max(rc, check_property(xp, PROPS[xp], MODELS, a.tier, seed))
+            return rc
         P = PROPS[a.pid]
         if a.replay:
             return replay(a.pid, P, MODELS, a.replay)
